@@ -70,6 +70,17 @@ func SelfTest() error {
 	if b := EncodeB2(nil); len(b) != 6 {
 		return errors.New("empty input must encode to 6 bytes")
 	}
+	// the symbol-level encoder must agree with the decoder, including overlapping matches and
+	// references into the space pre-fill; reads of never-written window positions must be flagged
+	syms := []Sym{{Lit: 'x'}, {Len: 5, Pos: 0}, {Len: 4, Pos: 100}, {Lit: 'y'}, {Len: 60, Pos: 1500}, {Len: 3, Pos: 6}}
+	want := "xxxxxx" + "    " + "y" + strings.Repeat(" ", 60) + "   "
+	dec, used, st, err := DecodeStats(EncodeSyms(int32(len(want)), syms))
+	if err != nil || string(dec) != want || st.Undefined != 0 || st.Matches != 4 || st.Literals != 2 {
+		return fmt.Errorf("symbol-level encoder/decoder disagree: %q used=%d err=%v stats=%+v", dec, used, err, st)
+	}
+	if _, _, st, err = DecodeStats(EncodeSyms(3, []Sym{{Len: 3, Pos: rN - 1}})); err != nil || st.Undefined != 3 {
+		return fmt.Errorf("read of the unwritten window region not flagged: err=%v stats=%+v", err, st)
+	}
 	return nil
 }
 
